@@ -838,7 +838,7 @@ class Interp:
             occ = self._exit_occ.get(here, 0)
             self._exit_occ[here] = occ + 1
             self.exit_ids.append((len(self.guards), here[0], occ))     # the guard appended next is this exit
-            if self.force_exit is not None and self.forced is None and self.force_exit == (here[0], occ):
+            if self.force_exit is not None and ((self.forced is None and self.force_exit == (here[0], occ)) or self.force_exit == (here[0], "*")):
                 # this one early exit is followed for real: its condition holds from here on
                 g = c if body_exits else c.negate()
                 self.forced = (g, here[0], here[1])
